@@ -257,6 +257,53 @@ static std::string do_write_delay(const std::string & line) {
     return out;
 }
 
+// FT r <hex>  /  FT w <level> <cs> | objs : a plain session through the documented API with NO accessor call between
+// open() and the first read()/write() (an is_open() there would order the threads by accident): for ThreadSanitizer.
+static std::string do_tsan(const std::string & line) {
+    std::vector<std::string> parts = split_bar(line);
+    std::istringstream hs(parts[0]);
+    std::string cmd, dir;
+    hs >> cmd >> dir;
+    if (dir == "r") {
+        std::string hex;
+        hs >> hex;
+        std::string path = g_tmp + ".t.blf";
+        {
+            std::vector<unsigned char> b = rt_unhex("x" + hex);
+            std::ofstream o(path, std::ios::binary);
+            o.write(reinterpret_cast<const char *>(b.data()), static_cast<std::streamsize>(b.size()));
+        }
+        unsigned long long n = 0, cnt = 0, usz = 0;
+        {
+            File f;
+            f.open(path.c_str(), std::ios_base::in);
+            while (ObjectHeaderBase * o = f.read()) { delete o; n++; g_progress++; }
+            f.close();
+            cnt = f.currentObjectCount;
+            usz = f.currentUncompressedFileSize;
+        }
+        std::remove(path.c_str());
+        return "FT ok n=" + std::to_string(n) + " count=" + std::to_string(cnt) + " usize=" + std::to_string(usz);
+    }
+    int level = 1;
+    long cs = 0x20000;
+    hs >> level >> cs;
+    std::string path = g_tmp + ".t.blf";
+    unsigned long long cnt = 0, usz = 0;
+    {
+        File f;
+        f.compressionLevel = level;
+        f.setDefaultLogContainerSize(static_cast<uint32_t>(cs));
+        f.open(path.c_str(), std::ios_base::out);
+        write_objects(f, parts, 1);
+        f.close();
+        cnt = f.currentObjectCount;
+        usz = f.currentUncompressedFileSize;
+    }
+    std::remove(path.c_str());
+    return "FT ok count=" + std::to_string(cnt) + " usize=" + std::to_string(usz);
+}
+
 // FE <reads> <sleep_ms> <mode> <hex> : read `reads` objects (all if < 0), pause, then close (0) / destroy (1) /
 // close twice then destroy (2).  Prints objects read, flags, and the change in live allocations over the session.
 static std::string do_read_early(const std::string & line) {
@@ -345,6 +392,41 @@ static std::string do_memory(const std::string & line) {
     }
     std::remove(path.c_str());
     return "FM ok n=" + std::to_string(n) + " peak=" + std::to_string(static_cast<long long>(g_peak_bytes) - base);
+}
+
+// FU <sleep_us> <hex> : read the given file slowly; peak live bytes during the read session (files not written by the library:
+// runs of unknown-type objects, foreign container sizes)
+static std::string do_memory_file(const std::string & line) {
+    std::istringstream ss(line);
+    std::string cmd, hex;
+    long sleep_us = 0;
+    ss >> cmd >> sleep_us >> hex;
+    std::string path = g_tmp + ".u.blf";
+    {
+        std::vector<unsigned char> b = rt_unhex("x" + hex);
+        std::ofstream o(path, std::ios::binary);
+        o.write(reinterpret_cast<const char *>(b.data()), static_cast<std::streamsize>(b.size()));
+    }
+    hex.clear();
+    hex.shrink_to_fit();
+    long long base = g_live_bytes;
+    g_peak_bytes = base;
+    long n = 0;
+    {
+        File f;
+        f.open(path.c_str(), std::ios_base::in);
+        while (true) {
+            ObjectHeaderBase * o = f.read();
+            g_progress++;
+            if (!o) break;
+            n++;
+            delete o;
+            if (sleep_us > 0 && n % 8 == 0) std::this_thread::sleep_for(std::chrono::microseconds(sleep_us));
+        }
+        f.close();
+    }
+    std::remove(path.c_str());
+    return "FU ok n=" + std::to_string(n) + " peak=" + std::to_string(static_cast<long long>(g_peak_bytes) - base);
 }
 
 // FN <nobj> <objbytes> <cs> <sleep_us> : write nobj objects with a pause after each (the workers drain the stream in between);
@@ -457,6 +539,8 @@ int main(int argc, char ** argv) {
             else if (line.compare(0, 3, "FM ") == 0) r = do_memory(line);
             else if (line.compare(0, 3, "FH ") == 0) r = do_history(line);
             else if (line.compare(0, 3, "FN ") == 0) r = do_memory_write(line);
+            else if (line.compare(0, 3, "FT ") == 0) r = do_tsan(line);
+            else if (line.compare(0, 3, "FU ") == 0) r = do_memory_file(line);
             else r = "? bad case";
         } catch (std::exception & ex) {
             r = std::string("ESCAPED ") + ex.what();
